@@ -6,7 +6,8 @@ import Glom.Model.C17Env
   Iter case:
     {"kind":"iter", "sub":name, "sentinel":null|{"v":V}, "p":[op…], "e1":[op…], "e2":[op…],
      "src":{"fin":[V…],"tail":null|cls}, "k":n, "mode":"take"|"all"|{"first":key},
-     "impl":{"main":…, "repr_same":b, "before":T, "after":T, "reused":T, "fresh":T}}
+     "impl":{"main":…, "repr_same":b, "before":T, "after":T, "reused":T, "fresh":T, "repr_rt":null|T}}
+    repr_rt: take k of eval(repr(d2)) when every argument of the chain is a literal
     the prefix spec p = Iter(sub, sentinel=…).P…; d1 = p.E1…; d2 = p.E2… (after d1);
     T = {"items":[V…], "fin":"gotK"|"exhausted"|{"raised":cls}, "pulls":n}
     main = T (take / all) | {"first":{"found":V}|"default"|{"raised":cls}, "pulls":n}
@@ -283,9 +284,14 @@ def runIter (j : Json) : Except String Json := do
     checkSource src iReused.pulls r aReused && checkSource src iFresh.pulls r aFresh
   let srcAgree := src.after mBefore.pulls r == aBefore && src.after mAfter.pulls r == aAfter &&
     src.after mReused.pulls r == aReused && src.after mReused.pulls r == aFresh
-  let reuseHolds := checkReuse reprSame iBefore iAfter iReused iFresh &&
+  let iEvaled ← (match impl.getObjVal? "repr_rt" with
+    | .ok .null => pure none
+    | .ok ej => do return some (← takeOfJson ej)
+    | .error _ => pure none)
+  let reuseHolds := checkReuse reprSame iBefore iAfter iReused iFresh iEvaled &&
     checkTake prefixKinds src k iBefore && checkTake userKinds src k iReused
-  let reuseAgree := mBefore == iBefore && mAfter == iAfter && mReused == iReused && mReused == iFresh
+  let reuseAgree := mBefore == iBefore && mAfter == iAfter && mReused == iReused && mReused == iFresh &&
+    (match iEvaled with | some t => mReused == t | none => true)
   let (mainAgree, mainHolds, mainModel, br) ← (match modeJ with
     | .str "take" => pure (true, true, Json.null, s!"take-{finName mReused.fin}")
     | .str "all" => do
@@ -361,35 +367,6 @@ def pipeOfJson (j : Json) : Except String (List Kind) := do
   let ops ← (← arr (← j.getObjVal? "ops")).mapM entryOfJson
   return .base sub sentinel :: ops.map (·.kind)
 
-/-- the model: the steps run one after the other on the same source, which is at position
-    `pos`; a `take` step keeps its suspended chain in `live` -/
-def modelSteps (src : Src) (pipes : List (List Kind)) :
-    List Step → Nat → List (Option (List StageSt)) → List StepObs → List StepObs
-  | [], _, _, acc => acc.reverse
-  | st :: rest, pos, live, acc =>
-    let kinds := pipes.getD st.pipe []
-    match st.mode with
-    | .take k =>
-      let started : Built := match live.getD st.pipe none with
-        | some sts => .ok sts pos
-        | none => construct src FUEL kinds [] pos
-      match started with
-      | .ok sts pos' =>
-        let (out, sts') := takeK src FUEL k sts pos' []
-        let o := StepObs.run (obsOfRun out)
-        if o.raised || o.oof then (o :: acc).reverse
-        else modelSteps src pipes rest out.pulls (setAt live st.pipe (some sts')) (o :: acc)
-      | .err e pos' => (StepObs.run ⟨[], .raised e, pos'⟩ :: acc).reverse
-      | .oof => (StepObs.run ⟨[], .oof, pos⟩ :: acc).reverse
-    | .all =>
-      let out := runAllFrom kinds src FUEL pos
-      let o := StepObs.run (obsOfRun out)
-      if o.raised || o.oof then (o :: acc).reverse else modelSteps src pipes rest out.pulls live (o :: acc)
-    | .first key =>
-      let out := runFirstFrom kinds src FUEL key pos
-      let o := StepObs.first (firstObsOf out.1) out.2
-      if o.raised || o.oof then (o :: acc).reverse else modelSteps src pipes rest out.2 live (o :: acc)
-
 def runReuse (j : Json) : Except String Json := do
   let src ← srcOfJson (← j.getObjVal? "src")
   let (xs, tail) := match src with
@@ -407,7 +384,7 @@ def runReuse (j : Json) : Except String Json := do
   let iObs ← (steps.take obsJ.length |>.zip obsJ).mapM (fun (s, o) => stepObsOfJson s.mode o)
   let iAfter ← afterOfJson impl
   let none0 : List (Option (List StageSt)) := pipes.map (fun _ => none)
-  let mObs := modelSteps src pipes steps 0 none0 []
+  let mObs := (modelSteps FUEL src pipes steps 0 none0).map StepOut.obs
   if mObs.any StepObs.oof then
     return Json.mkObj [("skip", true), ("why", "model ran out of fuel")]
   let mPos := match mObs.getLast? with | some o => o.pulls | none => 0
